@@ -32,6 +32,7 @@ var keySets = [][]int{{1}, {2}, {}, {2, 1}}
 type stepObs struct {
 	out      string
 	v        [4]string // Envelope.Verify with keySets[i]
+	nilKey   string    // "" or how a nil key in the list changed the answer
 	validate string
 	hdr      envh.Hdr
 	sigs     []envh.SigRec
@@ -49,11 +50,12 @@ type histObs struct {
 }
 
 type runner struct {
-	c     *core.Ctx
-	keys  []*dsig.PrivateKey
-	dig   *envh.Digests
-	quiet bool // re-running candidates of the shrinker: no counters, no failures
-	nfail int
+	c        *core.Ctx
+	keys     []*dsig.PrivateKey
+	stranger *dsig.PublicKey // a key that never signs
+	dig      *envh.Digests
+	quiet    bool // re-running candidates of the shrinker: no counters, no failures
+	nfail    int
 }
 
 func histUUID(id int) string  { return fmt.Sprintf("0190f5c1-0001-7000-8000-%012x", id) }
@@ -320,6 +322,18 @@ func (r *runner) run(tc tcase, base int, next func(st *envh.St, i int) (envh.Act
 				so.v[q] = st.Verify(ks)
 			}
 			so.validate = envh.Class(st.Env.Validate())
+			// a nil key in the list matches nothing: alone it behaves like a key that signed
+			// nothing, next to a real key it changes nothing
+			if len(st.Env.Signatures) > 0 {
+				vn := envh.VerifyDetail(st.Env.Verify(nil, nil), len(st.Env.Signatures))
+				vs := envh.VerifyDetail(st.Env.Verify(r.stranger), len(st.Env.Signatures))
+				vk := envh.VerifyDetail(st.Env.Verify(nil, r.keys[0].Public()), len(st.Env.Signatures))
+				if vn != vs {
+					so.nilKey = fmt.Sprintf("Envelope.Verify(nil, nil) = %s but with a key that signed nothing = %s", vn, vs)
+				} else if vk != so.v[0] {
+					so.nilKey = fmt.Sprintf("Envelope.Verify(nil, key 1) = %s but Verify(key 1) = %s", vk, so.v[0])
+				}
+			}
 		}); p != "" {
 			if !r.quiet {
 				r.c.Fail("", "panic while executing / verifying "+a.String()+": "+p, cp)
@@ -424,6 +438,7 @@ func keyName(k int) string {
 // Run is the C09 correspondence and oracle run.
 func Run(c *core.Ctx) int {
 	r := &runner{c: c, keys: []*dsig.PrivateKey{dsig.NewES256Key(), dsig.NewES256Key()}, dig: envh.NewDigests()}
+	r.stranger = dsig.NewES256Key().Public()
 	var hs []*histObs
 	var rc tcase
 	if c.ReplayCase(&rc) {
@@ -522,6 +537,12 @@ func Run(c *core.Ctx) int {
 			// (P) the property on the Go output: Envelope.Verify accepts exactly what was signed
 			c.Eval("", false)
 			failed := false
+			if so.nilKey != "" {
+				failed = true
+				c.Fail("", fmt.Sprintf("%s, after %v", so.nilKey, upto.Acts), map[string]any{"case": upto, "path": "library"})
+			} else if len(so.sigs) > 0 {
+				c.Count("lib.verify:nil-keys-consistent", 1)
+			}
 			for q, ks := range keySets {
 				ok := so.v[q] == "ok"
 				c.Count(fmt.Sprintf("lib.verify%v:%s", ks, envh.VerifyClass(so.v[q])), 1)
